@@ -20,6 +20,7 @@ CONSTANTS
   ParseMemoAliased = FALSE
   CommaSeparates = FALSE
   RejectDrops = FALSE
+  MayAcceptedSplits = FALSE
   RejAt = {1}
   RejThen = 2
   RejEditAt = {1}
